@@ -16,7 +16,7 @@ MANIFEST = {
         ref="§5 C02, §7 F10"),
 }
 
-THEOREMS = ["Uspsc.C02_reachable_safe", "Uspsc.C02_chain", "Uspsc.C02_alloc_within_cap", "Uspsc.C02_throw_iff",
+THEOREMS = ["Uspsc.C02_reachable_safe", "Uspsc.C02_chain", "Uspsc.C02_trace_fifo", "Uspsc.ti_step", "Uspsc.C02_alloc_within_cap", "Uspsc.C02_throw_iff",
             "Uspsc.C02_null", "Uspsc.C02_shrink_iff", "Uspsc.C02_null_means_at_max_partial",
             "Uspsc.C02_non_pow2_max_refuses", "Uspsc.relaxed_next_unsafe", "Uspsc.no_reread_unsafe",
             "Uspsc.ustep_inv", "Uspsc.ustep_safe",
